@@ -9,8 +9,8 @@ open Num
 
 /-- rewrite the `Num ℝ` operations into the ordinary real ones -/
 macro "num_real" : tactic =>
-  `(tactic| ((try simp only [real_add, real_sub, real_mul, real_div, real_neg, real_ofNat, real_ofNat', real_abs, real_sqrt,
-      real_nextUp, real_nextDown]); (try simp only [Nat.cast_ofNat, Nat.cast_zero, Nat.cast_one])))
+  `(tactic| (try simp only [real_add, real_sub, real_mul, real_div, real_neg, real_ofNat, real_ofNat', real_abs, real_sqrt,
+      real_nextUp, real_nextDown, realOfNat_zero, realOfNat_one, realOfNat_ofNat, real_ofSci, real_ofSci']))
 
 namespace M4
 
